@@ -313,6 +313,7 @@ class AxiomSink:
         self.facts = []
         self.fns = {}
         self.seen = set()
+        self.cinst = {}
 
     def drain(self):
         f, self.facts = self.facts, []
@@ -321,6 +322,7 @@ class AxiomSink:
     def reset(self):
         self.facts = []
         self.seen = set()
+        self.cinst = {}
 
 
 SINK = AxiomSink()
@@ -385,8 +387,43 @@ def _crsump(name, n, f, params, lo=0, sort="int"):
     return t
 
 
+def _count_lemmas(fn, key, n, params, lo_t):
+    """facts about a count (a sum of 0/1 terms) that need induction and are therefore instantiated, not derived: 0 <= c(n) <= n - lo,
+    and for two instances of the same count  n <= m  ->  0 <= c(m) - c(n) <= m - n.   (Induction steps: lemma:count_* units.)"""
+    t = fn(n, *params)
+    SINK.facts.append(z3.And(t >= 0, z3.Implies(n >= lo_t, t <= n - lo_t), z3.Implies(n <= lo_t, t == 0)))
+    ck = ("count-instances", key, tuple(p.sexpr() for p in params))
+    prev = SINK.cinst.setdefault(ck, [])
+    for m in prev:
+        if m.eq(n):
+            continue
+        tm = fn(m, *params)
+        SINK.facts.append(z3.And(z3.Implies(n <= m, z3.And(tm - t >= 0, tm - t <= m - n)),
+                                 z3.Implies(m <= n, z3.And(t - tm >= 0, t - tm <= n - m))))
+    if not any(m.eq(n) for m in prev):
+        prev.append(n)
+
+
 def count(name, n, pred, lo=0):
-    return rsum(name, n, lambda q: z3.If(smt.boolean(pred(q)), z3.IntVal(1), z3.IntVal(0)), lo, "int")
+    r = rsum(name, n, lambda q: z3.If(smt.boolean(pred(q)), z3.IntVal(1), z3.IntVal(0)), lo, "int")
+    if MODE != "conc" and z3.is_app(r) and r.num_args() == 1:
+        ik = ("count-lemmas", r.sexpr())
+        if ik not in SINK.seen:
+            SINK.seen.add(ik)
+            _count_lemmas(lambda x: r.decl()(x), r.decl().name(), r.arg(0), [], smt.integer(lo))
+    return r
+
+
+def countp(name, n, pred, params, lo=0):
+    """parametric count: #{q in [lo, n): pred(q, *params)} with the count lemmas instantiated"""
+    r = rsump(name, n, lambda q, *ps: z3.If(smt.boolean(pred(q, *ps)), z3.IntVal(1), z3.IntVal(0)), params, lo, "int")
+    if MODE != "conc" and z3.is_app(r):
+        ik = ("count-lemmas", r.sexpr())
+        if ik not in SINK.seen:
+            SINK.seen.add(ik)
+            args = [r.arg(k) for k in range(r.num_args())]
+            _count_lemmas(lambda x, *ps: r.decl()(x, *ps), r.decl().name(), args[0], args[1:], smt.integer(lo))
+    return r
 
 
 _OPAQUE = {}
@@ -428,6 +465,8 @@ def opaque(name, fn, sort="real"):
 BASE_NS["rsum"] = rsum
 BASE_NS["rsump"] = rsump
 CONC_NS["rsump"] = _crsump
+BASE_NS["countp"] = countp
+CONC_NS["countp"] = lambda name, n, pred, params, lo=0: sum(1 for q in range(lo, n) if pred(q, *params))
 BASE_NS["reveal"] = lambda *a: z3.BoolVal(True)
 
 
@@ -453,6 +492,30 @@ def opaque_fn(name, fn, sort="real"):
     return opaque(name, fn, sort)
 
 
+def macro_fn(name, fn, nargs, sort="int"):
+    """non-recursive spec function of integer arguments given by one quantified definition  forall a: f(a) == fn(a)  with pattern f(a).
+    Unlike `opaque_fn` the definition is available at every instance the solver matches, also under quantifiers; use it to keep
+    non-linear index arithmetic out of quantified invariants."""
+    def call(*args):
+        if MODE == "conc":
+            return fn(*args)
+        key = ("macro", name, nargs, sort)
+        if key not in SINK.fns:
+            SINK.fns[key] = z3.Function("%s$m%d" % (name, len(SINK.fns)), *([smt.I] * nargs + [smt.R if sort == "real" else smt.I]))
+        f = SINK.fns[key]
+        ik = ("macro-def", name, f.name())
+        if ik not in SINK.seen:
+            SINK.seen.add(ik)
+            vs = [z3.Int("mv!%s!%d" % (name, k)) for k in range(nargs)]
+            body = fn(*vs)
+            body = smt.real(body) if sort == "real" else smt.integer(body)
+            SINK.facts.append(z3.ForAll(vs, f(*vs) == body, patterns=[f(*vs)]))
+        return f(*[smt.integer(a) for a in args])
+    return call
+
+
+BASE_NS["macro_fn"] = macro_fn
+CONC_NS["macro_fn"] = lambda name, fn, nargs, sort="int": fn
 BASE_NS["opaque_fn"] = opaque_fn
 CONC_NS["opaque_fn"] = lambda name, fn, sort="real": fn
 
